@@ -1,5 +1,5 @@
 CONSTANT Mechanism = "native"
-CONSTANTS LoopTargetsSupported = FALSE  WithRewritten = FALSE  FallOffRewritten = FALSE
+CONSTANTS LoopTargetsSupported = FALSE  WithRewritten = FALSE  FallOffRewritten = FALSE  MatchCapturesKnown = FALSE
 INIT InitX
 NEXT Next
 CONSTRAINT Collect
